@@ -222,7 +222,12 @@ func (setup *SetupServerController) handleKeyExchange(in util.Container) (util.C
 		material = append(material, []byte(username)...)
 		material = append(material, clientltpk...)
 
-		if crypto.ValidateED25519Signature(clientltpk, material, signature) == false {
+		if username == setup.device.Name() {
+			// the key pair of the accessory is stored under that name
+			log.Debug.Println("controller uses the name of the accessory")
+			setup.reset()
+			out.SetByte(TagErrCode, ErrCodeAuthenticationFailed.Byte()) // return error 2
+		} else if crypto.ValidateED25519Signature(clientltpk, material, signature) == false {
 			log.Debug.Println("ed25519 signature is invalid")
 			setup.reset()
 			out.SetByte(TagErrCode, ErrCodeAuthenticationFailed.Byte()) // return error 2
